@@ -1,11 +1,14 @@
 package samlsim
 
 import (
+	"bytes"
 	"crypto/rsa"
 	"crypto/sha256"
 	"encoding/base64"
 	"fmt"
+	"io"
 	"math/big"
+	"net/http"
 	"net/http/httptest"
 	"net/url"
 	"sort"
@@ -52,6 +55,10 @@ type c01Knobs struct {
 	// Hooks: the application installs permissive ValidateAudienceRestriction / ValidateRequestID hooks (both accept everything):
 	// what remains between a forged document and acceptance is the signature alone
 	Hooks bool `json:"permissive_validation_hooks,omitempty"`
+	// DupCert: the metadata lists the first trusted signing certificate a second time (in a descriptor without use)
+	DupCert bool `json:"metadata_lists_certificate_twice,omitempty"`
+	// AADecoy: the metadata has an AttributeAuthorityDescriptor whose signing key is rsa4 (Mallory holds it): a key of another role of the entity
+	AADecoy bool `json:"attribute_authority_decoy,omitempty"`
 }
 
 type c01Op struct {
@@ -66,9 +73,10 @@ type c01Op struct {
 }
 
 type c01Step struct {
-	Kind      string   `json:"kind"`  // deliver
-	Entry     string   `json:"entry"` // xml | post | artifact
-	Base      string   `json:"base"`  // genuine | untrusted
+	Kind      string   `json:"kind"`                                   // deliver
+	Entry     string   `json:"entry"`                                  // xml | post | artifact
+	ViaHTTP   bool     `json:"artifact_resolved_over_https,omitempty"` // entry artifact: the browser brings SAMLart and the SP fetches the ArtifactResponse over its (https) back-channel
+	Base      string   `json:"base"`                                   // genuine | untrusted
 	Spec      RespSpec `json:"response"`
 	ArtSign   bool     `json:"artifact_signed,omitempty"`
 	ArtKey    int      `json:"artifact_key,omitempty"`
@@ -160,6 +168,8 @@ func genTamper(g *Rng, tier string) *Plan {
 	k := c01Knobs{Trust: c01Trusts[g.PickW(30, 10, 15, 5, 15, 25)]}
 	k.EncDecoy = g.Bool(0.45)
 	k.Hooks = g.Bool(0.2)
+	k.DupCert = strings.HasPrefix(k.Trust, "md") && g.Bool(0.3)
+	k.AADecoy = g.Bool(0.3)
 	p := &Plan{Knobs: mustJSON(k)}
 	n := 1 + g.PickW(5, 3, 2)
 	rotateAt, cur := -1, k.Trust
@@ -215,6 +225,7 @@ func genTamper(g *Rng, tier string) *Plan {
 		if st.Entry == "artifact" && g.Bool(0.5) {
 			st.ArtSign, st.ArtKey = true, signKey
 		}
+		st.ViaHTTP = st.Entry == "artifact" && g.Bool(0.5)
 		st.InheritNS = g.Bool(0.2)
 		st.Prefix = g.PickW(6, 2, 2)
 		nops := g.PickW(20, 35, 30, 15)
@@ -578,7 +589,7 @@ func (w *c01World) issue(st *c01Step, si int, t0 time.Time) *c01Msg {
 		if st.ArtSign {
 			kp = &rsaKeys[st.ArtKey]
 		}
-		body = wrapArtifactResponse(el, "id-art-"+strconv.Itoa(si), c01ResolID, idpEntity, saml.StatusSuccess, t0, kp)
+		body = wrapArtifactResponse(el, "id-art-"+strconv.Itoa(si), c01ResolFor(st), idpEntity, saml.StatusSuccess, t0, kp)
 	} else {
 		body = elBytes(el)
 	}
@@ -1649,6 +1660,18 @@ func c01NewSP(k c01Knobs) *saml.ServiceProvider {
 		signing = []KeyPair{rsaKeys[3]} // the metadata lists another certificate: pinning must exclude it
 	}
 	md := idpMetadataFor(idpEntity, idpSSO, idpSLO, signing, enc, use)
+	cert := func(kp KeyPair, use string) saml.KeyDescriptor {
+		return saml.KeyDescriptor{Use: use, KeyInfo: saml.KeyInfo{X509Data: saml.X509Data{X509Certificates: []saml.X509Certificate{{Data: kp.CertB64()}}}}}
+	}
+	if k.DupCert && len(signing) > 0 {
+		md.IDPSSODescriptors[0].KeyDescriptors = append(md.IDPSSODescriptors[0].KeyDescriptors, cert(signing[0], ""))
+	}
+	if k.AADecoy {
+		md.AttributeAuthorityDescriptors = []saml.AttributeAuthorityDescriptor{{
+			RoleDescriptor:    saml.RoleDescriptor{ProtocolSupportEnumeration: "urn:oasis:names:tc:SAML:2.0:protocol", KeyDescriptors: []saml.KeyDescriptor{cert(rsaKeys[4], "signing")}},
+			AttributeServices: []saml.Endpoint{{Binding: saml.SOAPBinding, Location: "https://idp.example.com/attributes"}}}}
+	}
+	md.IDPSSODescriptors[0].ArtifactResolutionServices = []saml.Endpoint{{Binding: saml.SOAPBinding, Location: "https://idp.example.com/artifact"}}
 	spv := newSP(spBase, rsaKeys[c01SPKey], "", md)
 	switch k.Trust {
 	case "pinned":
@@ -1664,6 +1687,30 @@ func c01NewSP(k c01Knobs) *saml.ServiceProvider {
 		spv.ValidateRequestID = func(saml.Response, []string) error { return nil }
 	}
 	return spv
+}
+
+// c01Sevens is the random source while an artifact is resolved over HTTP; c01ResolFor is the ArtifactResolve ID it leads to.
+type c01Sevens struct{}
+
+func (c01Sevens) Read(p []byte) (int, error) {
+	for i := range p {
+		p[i] = 7
+	}
+	return len(p), nil
+}
+
+func c01ResolFor(st *c01Step) string {
+	if st.ViaHTTP {
+		return "id-" + strings.Repeat("07", 20)
+	}
+	return c01ResolID
+}
+
+// c01Back is the artifact resolution service: it answers every ArtifactResolve with the (possibly tampered) envelope.
+type c01Back struct{ body []byte }
+
+func (b c01Back) RoundTrip(r *http.Request) (*http.Response, error) {
+	return &http.Response{StatusCode: 200, Status: "200 OK", Body: io.NopCloser(bytes.NewReader(b.body)), Header: http.Header{}, Request: r}, nil
 }
 
 func c01OpName(op c01Op) string {
@@ -1795,6 +1842,17 @@ func execTamper(t *testing.T, p *Plan) *Result {
 				_ = r.ParseForm()
 				as, err = spv.ParseResponse(r, []string{c01ReqID})
 			case "artifact":
+				if st.ViaHTTP {
+					// the ArtifactResolve ID is drawn from the randomness seam: a fixed stream makes it the ID the envelope was issued for
+					old := saml.RandReader
+					saml.RandReader = c01Sevens{}
+					spv.HTTPClient = &http.Client{Transport: c01Back{body}}
+					r := httptest.NewRequest("GET", spv.AcsURL.String()+"?SAMLart="+url.QueryEscape(c02Artifact), nil)
+					_ = r.ParseForm()
+					as, err = spv.ParseResponse(r, []string{c01ReqID})
+					saml.RandReader = old
+					break
+				}
 				as, err = spv.ParseXMLArtifactResponse(body, []string{c01ReqID}, c01ResolID, spv.AcsURL)
 			default:
 				as, err = spv.ParseXMLResponse(body, []string{c01ReqID}, spv.AcsURL)
